@@ -9,26 +9,30 @@ Open Scope Q_scope.
 Definition fl (m e : Z) : Q :=
   if (0 <=? e)%Z then inject_Z (m * 2 ^ e) else Qmake m (Z.to_pos (2 ^ (- e))).
 
-(** exact results up to double rounding: |a - b| <= 1e-12 (|a| + |b|) + 1e-11 *)
-Definition qc (a b : Q) : bool := Qclose (1 # 1000000000000) (1 # 100000000000) a b.
-Definition qlc := list_eqb qc.
-Definition seg_close (a b : seg) : bool :=
-  let '(a0, a1, a2, a3) := a in let '(b0, b1, b2, b3) := b in qc a0 b0 && qc a1 b1 && qc a2 b2 && qc a3 b3.
-Definition bar_close (a b : Q * Q * Q) : bool :=
-  let '(a0, a1, a2) := a in let '(b0, b1, b2) := b in qc a0 b0 && qc a1 b1 && qc a2 b2.
-Definition pair_close (a b : list Q * list Q) : bool := qlc (fst a) (fst b) && qlc (snd a) (snd b).
-Definition segs_close (a b : list seg * list seg) : bool :=
-  list_eqb seg_close (fst a) (fst b) && list_eqb seg_close (snd a) (snd b).
-Definition points_close (a b : points) : bool :=
-  qlc (p_x a) (p_x b) && qlc (p_y a) (p_y b) && option_eqb segs_close (p_bars a) (p_bars b).
-Definition curve_close (a b : curve) : bool :=
-  qlc (c_x a) (c_x b) && qlc (c_y a) (c_y b) && option_eqb pair_close (c_band a) (c_band b).
-Definition drawn_close (a b : drawn) : bool :=
+(** exact results up to double rounding: |a - b| <= 1e-12 (|a| + |b|) + 1e-11 * s, where s is the
+    scale of the case's data (generated cases multiply x, y and uncertainties by s = 2^k,
+    k in -40 .. 30, so that an absolute tolerance cannot hide a discrepancy in small data) *)
+Definition qc (s a b : Q) : bool := Qclose (1 # 1000000000000) ((1 # 100000000000) * s) a b.
+Definition qlc (s : Q) := list_eqb (qc s).
+Definition seg_close (s : Q) (a b : seg) : bool :=
+  let '(a0, a1, a2, a3) := a in let '(b0, b1, b2, b3) := b in qc s a0 b0 && qc s a1 b1 && qc s a2 b2 && qc s a3 b3.
+(** the largest magnitude in a list: the scale of histogram contents (counts, or densities ~ 1/s) *)
+Definition maxabs (l : list Q) : Q := fold_right (fun x m => if Qle_bool m (Qabs x) then Qabs x else m) 0 l.
+Definition bar_close (s hs : Q) (a b : Q * Q * Q) : bool :=
+  let '(a0, a1, a2) := a in let '(b0, b1, b2) := b in qc s a0 b0 && qc s a1 b1 && qc hs a2 b2.
+Definition pair_close (s : Q) (a b : list Q * list Q) : bool := qlc s (fst a) (fst b) && qlc s (snd a) (snd b).
+Definition segs_close (s : Q) (a b : list seg * list seg) : bool :=
+  list_eqb (seg_close s) (fst a) (fst b) && list_eqb (seg_close s) (snd a) (snd b).
+Definition points_close (s : Q) (a b : points) : bool :=
+  qlc s (p_x a) (p_x b) && qlc s (p_y a) (p_y b) && option_eqb (segs_close s) (p_bars a) (p_bars b).
+Definition curve_close (s : Q) (a b : curve) : bool :=
+  qlc s (c_x a) (c_x b) && qlc s (c_y a) (c_y b) && option_eqb (pair_close s) (c_band a) (c_band b).
+Definition drawn_close (sc : Q) (a b : drawn) : bool :=
   match a, b with
-  | DrData p, DrData q => points_close p q
-  | DrFunc c, DrFunc d => curve_close c d
-  | DrFit c r, DrFit d s => curve_close c d && option_eqb points_close r s
-  | DrHist x, DrHist y => list_eqb bar_close x y
+  | DrData p, DrData q => points_close sc p q
+  | DrFunc c, DrFunc d => curve_close sc c d
+  | DrFit c r, DrFit d s => curve_close sc c d && option_eqb (points_close sc) r s
+  | DrHist x, DrHist y => list_eqb (bar_close sc (maxabs (map (fun b => snd b) x))) x y
   | _, _ => false
   end.
 
@@ -111,15 +115,15 @@ Fixpoint to_objs (cs : list cobj) (os : list drawn) : list obj :=
 
 (** the drawn fit curve agrees with the fit function within Monte Carlo sampling error:
     6 sigma / sqrt(10000), sigma = the drawn band's half width, plus rounding slack *)
-Definition mc_tolerance (sigma ref : Q) : Q :=
-  6 * sigma / 100 + (1 # 1000000000) * (Qabs ref + 1).
-Definition mc_within (f : fit_obj) (xs : list Q) : bool :=
+Definition mc_tolerance (sc sigma ref : Q) : Q :=
+  6 * sigma / 100 + (1 # 1000000000) * (Qabs ref + sc).
+Definition mc_within (sc : Q) (f : fit_obj) (xs : list Q) : bool :=
   forallb (fun x => let '(m, s) := fi_mc f x in
-                    Qle_bool (Qabs (m - fi_fn f x)) (mc_tolerance s (fi_fn f x)) && Qle_bool 0 s) xs.
-Definition obj_mc_ok (o : obj) : bool :=
+                    Qle_bool (Qabs (m - fi_fn f x)) (mc_tolerance sc s (fi_fn f x)) && Qle_bool 0 s) xs.
+Definition obj_mc_ok (sc : Q) (o : obj) : bool :=
   match o with
   | OFit f => match fi_range f with
-              | Some r => mc_within f (linspace100 (fst r) (snd r))
+              | Some r => mc_within sc f (linspace100 (fst r) (snd r))
               | None => true
               end
   | _ => true
@@ -133,7 +137,8 @@ Record observation := mk_observation {
   ob_xlabel : text; ob_ylabel : text; ob_title : text;
   ob_res_xlabel : option text;
   ob_legend : option (list text);
-  ob_returned : list (list Q * list Q) }.          (* what Plot.hist returned, per histogram, in order *)
+  ob_returned : list (list Q * list Q);
+  ob_scale : Q }.                                     (* the scale of the case's data (1 for ordinary cases) *)          (* what Plot.hist returned, per histogram, in order *)
 
 Definition status_eqb (a b : status) : bool :=
   match a, b with
@@ -142,20 +147,20 @@ Definition status_eqb (a b : status) : bool :=
   | _, _ => false
   end.
 
-Definition returned_close (a b : list Q * list Q) : bool :=
-  qlc (fst a) (fst b) && qlc (snd a) (snd b).
+Definition returned_close (sc : Q) (a b : list Q * list Q) : bool :=
+  qlc (maxabs (fst a)) (fst a) (fst b) && qlc sc (snd a) (snd b).
 Definition returns_of (objs : list obj) : list (option (list Q * list Q)) :=
   flat_map (fun o => match o with OHist h => [hist_returned h] | _ => [] end) objs.
 
 Definition check_case (c : settings * list cobj * observation) : bool :=
   let '(cfg, cobjs, ob) := c in
   let objs := to_objs cobjs (ob_objs ob) in
-  list_eqb (option_eqb returned_close) (returns_of objs) (map Some (ob_returned ob)) &&
+  list_eqb (option_eqb (returned_close (ob_scale ob))) (returns_of objs) (map Some (ob_returned ob)) &&
   match savefig cfg objs with
   | Rendered fig =>
       status_eqb (ob_status ob) StOk &&
-      list_eqb drawn_close (fig_objs fig) (ob_objs ob) &&
-      forallb obj_mc_ok objs &&
+      list_eqb (drawn_close (ob_scale ob)) (fig_objs fig) (ob_objs ob) &&
+      forallb (obj_mc_ok (ob_scale ob)) objs &&
       text_eqb (fig_xlabel fig) (ob_xlabel ob) && text_eqb (fig_ylabel fig) (ob_ylabel ob) &&
       text_eqb (fig_title fig) (ob_title ob) &&
       option_eqb text_eqb (fig_res_xlabel fig) (ob_res_xlabel ob) &&
@@ -170,12 +175,12 @@ Definition check_case (c : settings * list cobj * observation) : bool :=
 Definition check_parts (c : settings * list cobj * observation) : list bool :=
   let '(cfg, cobjs, ob) := c in
   let objs := to_objs cobjs (ob_objs ob) in
-  list_eqb (option_eqb returned_close) (returns_of objs) (map Some (ob_returned ob)) ::
+  list_eqb (option_eqb (returned_close (ob_scale ob))) (returns_of objs) (map Some (ob_returned ob)) ::
   match savefig cfg objs with
   | Rendered fig =>
       [status_eqb (ob_status ob) StOk;
-       list_eqb drawn_close (fig_objs fig) (ob_objs ob);
-       forallb obj_mc_ok objs;
+       list_eqb (drawn_close (ob_scale ob)) (fig_objs fig) (ob_objs ob);
+       forallb (obj_mc_ok (ob_scale ob)) objs;
        text_eqb (fig_xlabel fig) (ob_xlabel ob); text_eqb (fig_ylabel fig) (ob_ylabel ob);
        text_eqb (fig_title fig) (ob_title ob);
        option_eqb text_eqb (fig_res_xlabel fig) (ob_res_xlabel ob);
@@ -188,6 +193,6 @@ Definition objects_parts (c : settings * list cobj * observation) : list bool :=
   let '(cfg, cobjs, ob) := c in
   let objs := to_objs cobjs (ob_objs ob) in
   match savefig cfg objs with
-  | Rendered fig => map2 drawn_close (fig_objs fig) (ob_objs ob)
+  | Rendered fig => map2 (drawn_close (ob_scale ob)) (fig_objs fig) (ob_objs ob)
   | _ => []
   end.
